@@ -1243,16 +1243,16 @@ m('C16', 'origin_and_widths: vector of three nodes dropped', MESHES,
 
 # C16 G9: the survey domain (round 7b)
 m('C16', 'origin_and_widths: distance without abs', MESHES,
-  "        domain = np.array([center-abs(distance[0]), center+abs(distance[1])])",
-  "        domain = np.array([center-distance[0], center+distance[1]])",
+  "        domain = np.array(\n            [center-abs(distance[0]), center+abs(distance[1])], dtype=float)",
+  "        domain = np.array(\n            [center-distance[0], center+distance[1]], dtype=float)",
   'C16.G9.survey_domain')
 m('C16', 'origin_and_widths: distance both sides from d0', MESHES,
-  "        domain = np.array([center-abs(distance[0]), center+abs(distance[1])])",
-  "        domain = np.array([center-abs(distance[0]), center+abs(distance[0])])",
+  "        domain = np.array(\n            [center-abs(distance[0]), center+abs(distance[1])], dtype=float)",
+  "        domain = np.array(\n            [center-abs(distance[0]), center+abs(distance[0])], dtype=float)",
   'C16.G9.survey_domain')
 m('C16', 'origin_and_widths: vector before distance', MESHES,
-  "    elif distance is not None:\n        domain = np.array([center-abs(distance[0]), center+abs(distance[1])])\n\n    elif vector is not None:\n        domain = np.array([vector.min(), vector.max()], dtype=float)",
-  "    elif vector is not None:\n        domain = np.array([vector.min(), vector.max()], dtype=float)\n\n    elif distance is not None:\n        domain = np.array([center-abs(distance[0]), center+abs(distance[1])])",
+  "    elif distance is not None:\n        domain = np.array(\n            [center-abs(distance[0]), center+abs(distance[1])], dtype=float)\n\n    elif vector is not None:\n        domain = np.array([vector.min(), vector.max()], dtype=float)",
+  "    elif vector is not None:\n        domain = np.array([vector.min(), vector.max()], dtype=float)\n\n    elif distance is not None:\n        domain = np.array(\n            [center-abs(distance[0]), center+abs(distance[1])], dtype=float)",
   'C16.G9.survey_domain')
 m('C16', 'origin_and_widths: given domain as integers', MESHES,
   "        domain = np.array(domain, dtype=np.float64)",
@@ -1271,7 +1271,7 @@ m('C16', 'estimate_gridding_opts: signed distance extent', MESHES,
   "            diff = distance[i][0] + distance[i][1]",
   'C16.G9.survey_default')
 n('C16', 'origin_and_widths: distance via np.abs and a sign vector', MESHES,
-  "        domain = np.array([center-abs(distance[0]), center+abs(distance[1])])",
+  "        domain = np.array(\n            [center-abs(distance[0]), center+abs(distance[1])], dtype=float)",
   "        domain = center + np.array([-1.0, 1.0])*np.abs(distance)")
 n('C16', 'estimate_gridding_opts: sources listed once', MESHES,
   "            inp = np.array([s.center[i] for s in survey.sources.values()])\n            for s in survey.sources.values():",
@@ -1279,3 +1279,7 @@ n('C16', 'estimate_gridding_opts: sources listed once', MESHES,
 n('C16', 'estimate_gridding_opts: receiver loop spelled out', MESHES,
   "                inp = np.r_[inp, [r.center_abs(s)[i]\n                                  for r in survey.receivers.values()]]",
   "                for r in survey.receivers.values():\n                    inp = np.r_[inp, r.center_abs(s)[i]]")
+m('C16', 'origin_and_widths: distance domain of the type of its inputs (F40)', MESHES,
+  "            [center-abs(distance[0]), center+abs(distance[1])], dtype=float)",
+  "            [center-abs(distance[0]), center+abs(distance[1])])",
+  'C16.G9.survey_domain')
